@@ -1076,3 +1076,96 @@ def check_pda_acceptance(ctx, rep, f, rule=RULE + '.M25'):
         rep.undecided(rule, f, 'def ' + f.name, 'outside the evaluator: {}'.format(e))
         return
     rep.holds(rule, f, 'def ' + f.name, 'on {} evaluations (six model PDAs with pushing, popping, replacing and stack-neutral moves, a push and a pop on the same letter, a final initial state; all words up to length 4 resp. 3; two iteration orders of sets) the answer is True exactly when an accepting computation exists'.format(cases))
+
+
+# ---- regular expression -> NFA and DFA -> regular expression on models --------------------------------------------------------------
+
+_RX_CLASSES = {
+    'Zero': lambda: Obj('Zero'), 'One': lambda: Obj('One'), 'Symbol': lambda symbol: Obj('Symbol', symbol=symbol), 'Iteration': lambda operand: Obj('Iteration', operand=operand),
+    'Sum': lambda left, right: Obj('Sum', left=left, right=right), 'Concat': lambda left, right: Obj('Concat', left=left, right=right),
+}
+
+
+def _rx_tuple(o):
+    if not isinstance(o, Obj):
+        raise Unsupported('not a regular expression object')
+    k = o._cls
+    if k in ('Zero', 'One'):
+        return (k,)
+    if k == 'Symbol':
+        return ('Symbol', str(o._f['symbol']))
+    if k == 'Iteration':
+        return ('Iteration', _rx_tuple(o._f['operand']))
+    if k in ('Sum', 'Concat'):
+        return (k, _rx_tuple(o._f['left']), _rx_tuple(o._f['right']))
+    raise Unsupported('not a regular expression object')
+
+
+def check_regexp_to_nfa(ctx, rep, f, rule=RULE + '.M26'):
+    """regexp_to_nfa on the model expressions: a valid NFA whose words over {a, b} up to length 3 are the denoted ones."""
+    cases = 0
+    classes = {'NFA': _nfa_class, 'IdentifierGenerator': lambda index=0: Obj('IdentifierGenerator', index=index),
+               'RegexpToNFAGenerator': lambda: Obj('RegexpToNFAGenerator', Sigma=set(), id_generator=Obj('IdentifierGenerator', index=0))}
+    try:
+        for t in _model_regexps():
+            for order in ('asc', 'desc'):
+                it = _interp(ctx, order, classes=classes, max_steps=400000)
+                it.superclasses = {k: ('Regexp',) for k in ('Zero', 'One', 'Symbol', 'Iteration', 'Sum', 'Concat')}
+                ok, got = _run(rule, rep, f, lambda: it.call(f, [_rx(t)]), 'on the expression {}'.format(_rx_str(t)))
+                if not ok:
+                    return
+                if not isinstance(got, Obj) or got._cls != 'NFA':
+                    raise Unsupported('the result is not an NFA built by the constructor')
+                cases += 1
+                g = got._f
+                delta = {k: set(v) for k, v in dict(g['delta']).items() if v}
+                Q, eps = set(g['Q']), g['epsilon']
+                if g['q0'] not in Q or not set(g['F']) <= Q or eps in set(g['Sigma']) or any(p not in Q or not set(v) <= Q or (a != eps and a not in set(g['Sigma'])) for (p, a), v in delta.items()):
+                    rep.violates(rule, f, 'def ' + f.name, 'on the expression {} the result is not a valid NFA (a state or label outside the declared sets, or epsilon inside the alphabet)'.format(_rx_str(t)))
+                    return
+                have = _nfa_lang(Obj('NFA', Q=Q, Sigma=set(g['Sigma']) | {'a', 'b'}, delta=delta, q0=g['q0'], F=set(g['F']), epsilon=eps), {'a', 'b'}, 3)
+                want = _rx_lang(t, 3)
+                if have != want:
+                    extra, missing = sorted(have - want), sorted(want - have)
+                    rep.violates(rule, f, 'def ' + f.name, 'on the expression {} the NFA {}'.format(_rx_str(t), 'accepts {!r}, which is not denoted'.format(extra[0]) if extra else 'rejects the denoted word {!r}'.format(missing[0])))
+                    return
+    except (Unsupported, RecursionError) as e:
+        rep.undecided(rule, f, 'def ' + f.name, 'outside the evaluator: {}'.format(e))
+        return
+    rep.holds(rule, f, 'def ' + f.name, 'on {} runs (35 model expressions, two iteration orders of sets) the result is a valid NFA with exactly the denoted words over {{a, b}} up to length 3'.format(cases))
+
+
+_ABC_DFAS = {
+    'all words over a, b, c (three parallel loops)': ({'s'}, {'a', 'b', 'c'}, {('s', 'a'): 's', ('s', 'b'): 's', ('s', 'c'): 's'}, 's', {'s'}),
+    'a and c go on, b stays': ({'s0', 's1'}, {'a', 'b', 'c'}, {('s0', 'a'): 's1', ('s0', 'b'): 's0', ('s0', 'c'): 's1', ('s1', 'a'): 's1', ('s1', 'b'): 's0', ('s1', 'c'): 's0'}, 's0', {'s1'}),
+}
+
+
+def check_dfa_to_regexp(ctx, rep, f, rule=RULE + '.M27'):
+    """dfa_to_regexp on the model DFAs: the words up to length 4 of the expression (set semantics in the analyser) are those
+    the DFA accepts, whatever the elimination order (two iteration orders of sets)."""
+    cases = 0
+    classes = dict(_RX_CLASSES)
+    classes['GNFA'] = lambda Q, Sigma, delta, q_start, q_accept, *a, **k: Obj('GNFA', Q=Q, Sigma=Sigma, delta=delta, q_start=q_start, q_accept=q_accept)
+    try:
+        for name, spec in list(_C_DFAS.items()) + [(k, v[:5]) for k, v in _MIN_DFAS.items()] + list(_ABC_DFAS.items()):
+            for order in ('asc', 'desc'):
+                D = _mk(*spec)
+                it = _interp(ctx, order, classes=classes, max_steps=2000000)
+                it.superclasses = {k: ('Regexp',) for k in ('Zero', 'One', 'Symbol', 'Iteration', 'Sum', 'Concat')}
+                ok, got = _run(rule, rep, f, lambda: it.call(f, [D]), 'on the DFA "{}"'.format(name))
+                if not ok:
+                    return
+                t = _rx_tuple(got)
+                cases += 1
+                K = 4 if len(spec[1]) <= 2 else 3
+                have, want = _rx_lang(t, K), _dfa_lang(D, K)
+                if have != want:
+                    extra, missing = sorted(have - want), sorted(want - have)
+                    rep.violates(rule, f, 'def ' + f.name, 'on the DFA "{}" (states eliminated in {} order) the expression {}'.format(
+                        name, 'ascending' if order == 'asc' else 'descending', 'denotes {!r}, which the DFA rejects'.format(extra[0]) if extra else 'does not denote {!r}, which the DFA accepts'.format(missing[0])))
+                    return
+    except (Unsupported, RecursionError) as e:
+        rep.undecided(rule, f, 'def ' + f.name, 'outside the evaluator: {}'.format(e))
+        return
+    rep.holds(rule, f, 'def ' + f.name, 'on {} runs (thirteen model DFAs, two of them with three parallel symbols between a pair of states; two elimination orders) the expression denotes exactly the words up to length 4 (3 for three letters) that the DFA accepts'.format(cases))
